@@ -45,6 +45,9 @@ func intBounds(base string) (lo, hi *big.Int) {
 	return nil, nil
 }
 
+// IntBounds exposes the bounds of the integer types.
+func IntBounds(base string) (lo, hi *big.Int) { return intBounds(base) }
+
 func IsIntType(base string) bool { lo, _ := intBounds(base); return lo != nil }
 
 // RandScalar draws a value of type t in canonical form. hostile selects the unfriendly alphabet.
